@@ -26,7 +26,7 @@ def hostile_packet(rng, n_rr=4):
                 left -= l + 1
             return ls
         if r == 1:
-            return [b"living-room-speaker1", b"local"]
+            return [b"living-room-speaker1", b"local"] if rng.chance(1, 3) else list(rng.choice(dns.WELL_KNOWN_NAMES))
         if r == 2:
             return [b"_srv", b"_tcp", b"local"]
         if r in (3, 4):
